@@ -7,6 +7,8 @@
 import AnyVecModel.Model.Ops
 import AnyVecModel.Proofs.KernelIter
 import AnyVecModel.Proofs.KernelPtrAt
+import AnyVecModel.Proofs.KernelRange
+import AnyVecModel.Proofs.KernelCtor
 namespace AnyVec
 namespace C14
 open World
@@ -172,6 +174,20 @@ theorem iter_new_is_the_source :
     Gen.Kernel.iter_new_fields =
       [("any_vec_ptr", "any_vec_ptr"), ("index", "start"), ("end", "end"), ("phantom", "PhantomData")] :=
   KernelTie.iter_new_tie
+
+/-- **source tie**: the cursor a `drain` / `splice` iterator starts with covers exactly the range the caller asked for:
+`into_range` of `/repo/src/lib.rs` (as re-translated on this run) turns every `RangeBounds` spelling - included,
+excluded, unbounded on either side - into the model's `(start, end)`, and `Drain::new` / `Splice::new` hand exactly
+this pair to `Iter::new` as `(index, end)`. -/
+theorem range_cursor_is_the_source (len : Nat) (lo hi : Bnd) (s e : Nat) (d : VecSt) :
+    (Gen.Kernel.into_range len lo hi =
+      match intoRange len lo hi with
+      | .ok (s, e) => .ok (.ret2 s e)
+      | .panic m => .panic m
+      | .ub m => .ub m) ∧
+    Gen.Kernel.drain_new d.len s e = .ok (.made s [s, e, s, e, d.len]) ∧
+    Gen.Kernel.splice_new d.len s e = .ok (.made s [s, e, s, e, d.len]) :=
+  ⟨KernelTie.into_range_tie len lo hi, rfl, (KernelTie.splice_ctor_tie d s e).1⟩
 
 end C14
 end AnyVec
